@@ -260,6 +260,11 @@ func (e *EvRes) Resolve(field *ggql.Field, args map[string]interface{}) (interfa
 		}
 		return "m" + strconv.Itoa(e.ID), nil
 	case "tag":
+		if field.Context != nil {
+			// (what the caller put on the parsed subscription field for its
+			// resolvers: part of the answer, so that its loss shows)
+			return "t" + strconv.Itoa(e.ID) + "@" + CanonLite(field.Context), nil
+		}
 		return "t" + strconv.Itoa(e.ID), nil
 	case "nested":
 		if e.Depth > 0 {
